@@ -5,6 +5,7 @@ package harness
 
 import (
 	"bytes"
+	"errors"
 	"fmt"
 
 	"github.com/pion/rtp"
@@ -12,6 +13,11 @@ import (
 
 	"verifharness/ref/rtpwire"
 )
+
+// errAppbitsNotLegacy: the library refuses an id-0 value under a 0x100X profile, i.e.
+// it does not treat that profile as legacy (any more): such a model is outside the
+// domain rather than a violation.
+var errAppbitsNotLegacy = errors.New("profile 0x100X is not a legacy profile for this library")
 
 type ExtElem struct {
 	ID  uint8    `json:"id"`
@@ -47,6 +53,10 @@ func (m *PacketModel) header() (rtp.Header, error) {
 		h.ExtensionProfile = m.Profile
 		for _, e := range m.Exts {
 			if err := h.SetExtension(e.ID, clone(e.Val)); err != nil {
+				if m.ExtKind == "legacy" && m.Profile >= 0x1001 && m.Profile <= 0x100F {
+					return h, errAppbitsNotLegacy
+				}
+
 				return h, fmt.Errorf("SetExtension(%d,%dB) on %s profile: %w", e.ID, len(e.Val), m.ExtKind, err)
 			}
 		}
@@ -204,6 +214,11 @@ func (m *PacketModel) classify(ci *CaseInfo) {
 	ci.Nontrivial = m.ExtKind != "none" || len(m.CSRC) > 0 || m.PaddingSize > 0 || len(m.Payload) == 0
 }
 
+// allowAppbitsProfiles lets genPacketModel use profiles 0x1001-0x100F as legacy
+// profiles (switched off while drawing RFC wire images for C02/C03/C05, whose
+// reference classifies those by the RFC).
+var allowAppbitsProfiles = true
+
 // genPacketModel draws a well-formed packet (the quantifier of C01).
 func genPacketModel(t *rapid.T) *PacketModel {
 	m := &PacketModel{
@@ -248,6 +263,11 @@ func genPacketModel(t *rapid.T) *PacketModel {
 			if m.Profile != rtpwire.ProfileOneByte && (m.Profile < 0x1000 || m.Profile > 0x100F) {
 				break
 			}
+		}
+		if allowAppbitsProfiles && rapid.IntRange(0, 7).Draw(t, "appbits") == 0 {
+			// 0x1001-0x100F: RFC 8285 two-byte form with appbits, which pion/rtp documents
+			// and treats as an RFC 3550 (legacy) profile; used by C01/C04/C20 only
+			m.Profile = uint16(0x1000 + rapid.IntRange(1, 15).Draw(t, "appbitsval"))
 		}
 		w := biased(t, "words", 0, 64, 0, 1, 2)
 		if rapid.IntRange(0, 199).Draw(t, "hugewords") == 0 {
